@@ -204,7 +204,7 @@ Definition with_builddir (l : loader) (b : option bytes) : loader :=
 
 (* Loader::parse_with_parser.  [depth] bounds include nesting; the statement loop is bounded by
    the parse fuel of the file. *)
-Fixpoint parse_file (fixed : bool) (depth : nat) (fs : list (bytes * bytes)) (l : loader)
+Fixpoint parse_file_r (fixed : bool) (depth : nat) (fs : list (bytes * bytes)) (reading : list bytes) (l : loader)
          (filename : bytes) (text : bytes) (inherited : vars) : outcome loader :=
   match depth with
   | O => Panic 60%N
@@ -227,10 +227,13 @@ Fixpoint parse_file (fixed : bool) (depth : nat) (fs : list (bytes * bytes)) (l 
              do r <- evaluate_path l p [vars_env vs];
              let '(l, id) := r in
              let path := file_nm l id in
+             if existsb (bytes_eqb path) reading
+             then Err (filename ++ bs ": " ++ path ++ bs " includes itself")     (* fix for F20 *)
+             else
              match assoc_b path fs with
              | None => Err (bs "read " ++ path ++ bs ": No such file or directory (os error 2)")
              | Some content =>
-               do l <- parse_file fixed depth fs l path content vs;
+               do l <- parse_file_r fixed depth fs (reading ++ [path]) l path content vs;
                stmts n l s vs
              end
            | SDefault ds =>
@@ -246,6 +249,10 @@ Fixpoint parse_file (fixed : bool) (depth : nat) (fs : list (bytes * bytes)) (l 
          end
        end) (S (length buf)) l s0 inherited
   end.
+
+Definition parse_file (fixed : bool) (depth : nat) (fs : list (bytes * bytes)) (l : loader)
+           (filename : bytes) (text : bytes) (inherited : vars) : outcome loader :=
+  parse_file_r fixed depth fs [] l filename text inherited.
 
 (* load::read up to (not including) the build log: the manifest is file 0 *)
 Definition load_manifest (fixed : bool) (depth : nat) (fs : list (bytes * bytes)) (name : bytes) (text : bytes)
